@@ -91,15 +91,21 @@ func blockedInGet(buf []byte) int {
 
 func runConc(c ConcCase, double bool) *pbt.Result {
 	var (
-		seq      atomic.Int64 // logical clock for "definitely before"
-		progress atomic.Int64
-		abort    atomic.Bool
-		live     atomic.Int32
-		logMu    sync.Mutex
-		failed   []interface{}
-		over     []rmRec
-		overBad  []interface{}
+		seq          atomic.Int64 // logical clock for "definitely before"
+		progress     atomic.Int64
+		abort        atomic.Bool
+		live         atomic.Int32
+		logMu        sync.Mutex
+		failed       []interface{}
+		failedPoison int
+		over         []rmRec
+		overBad      []interface{}
 	)
+	// a callback cannot legitimately be called more often than there are puts; the logs stop growing there
+	logCap := 64 + len(c.Cons)
+	for _, p := range c.Prods {
+		logCap += len(p.Ops)
+	}
 	caps := [3]int{0, c.Cap, c.Cap2}
 	nq := 1
 	var a api
@@ -107,19 +113,23 @@ func runConc(c ConcCase, double bool) *pbt.Result {
 		q := queue.NewRequestQueue(c.Cap)
 		q.Failed = func(v interface{}) {
 			logMu.Lock()
-			failed = append(failed, v)
+			if e, ok := v.(elem); ok && e.P < 0 {
+				failedPoison++
+			} else if len(failed) < logCap {
+				failed = append(failed, v)
+			}
 			logMu.Unlock()
 		}
 		q.Overflowed = func(v interface{}) {
 			at := seq.Add(1)
 			logMu.Lock()
-			if e, ok := v.(elem); ok {
+			if e, ok := v.(elem); ok && len(over) < logCap {
 				low := int64(0)
 				if len(over) > 0 {
 					low = over[len(over)-1].up
 				}
 				over = append(over, rmRec{e: e, low: low, up: at, by: "Overflowed"})
-			} else {
+			} else if len(overBad) < 4 {
 				overBad = append(overBad, v)
 			}
 			logMu.Unlock()
@@ -295,6 +305,7 @@ func runConc(c ConcCase, double bool) *pbt.Result {
 		return ch
 	}
 	stalled := func(stage string) *pbt.Result {
+		hangSeen.Store(true)
 		nIn := 0
 		for i := range inGet {
 			if inGet[i].Load() {
@@ -501,15 +512,10 @@ func runConc(c ConcCase, double bool) *pbt.Result {
 		}
 	}
 	if !double {
-		failedPoison := 0
 		for _, v := range failed {
 			e, ok := v.(elem)
 			if !ok {
 				return pbt.Fail("Failed callback received %v, which was never put", v)
-			}
-			if e.P < 0 {
-				failedPoison++
-				continue
 			}
 			n, isRefused := refused[e]
 			if !isRefused {
@@ -794,11 +800,18 @@ var specConcDouble = pbt.Register(pbt.Spec[ConcCase]{
 	Run:  func(c ConcCase) *pbt.Result { return runConc(c, true) },
 })
 
-func TestConcSingle(t *testing.T) { specConcSingle.Check(t) }
-func TestConcDouble(t *testing.T) { specConcDouble.Check(t) }
+func skipIfSeqFailed(t *testing.T) {
+	if seqFailed.Load() {
+		t.Skip("a sequential sub-check of C11 already failed in this process; concurrent scenarios need a queue that works sequentially")
+	}
+}
+
+func TestConcSingle(t *testing.T) { skipIfSeqFailed(t); specConcSingle.Check(t) }
+func TestConcDouble(t *testing.T) { skipIfSeqFailed(t); specConcDouble.Check(t) }
 
 // Hand-written scenarios: the lost-wake-up shape and the tightest bounds.
 func TestConcBoundaries(t *testing.T) {
+	skipIfSeqFailed(t)
 	for _, c := range []ConcCase{
 		{Cap: 1, Phase: "consumers-first", Prods: []Prod{{Ops: "p"}}, Cons: []Cons{{}}},
 		{Cap: 1, Phase: "consumers-first", Prods: []Prod{{Ops: "pppppppppp"}, {Ops: "ffffffffff", Pace: 1}}, Cons: []Cons{{}, {}, {}}},
